@@ -20,6 +20,7 @@ const (
 	VerifUPReferencesLoad   = 5 // (no longer used: References reads the count while holding up.RLock())
 	VerifUPRangeVisit       = 6 // (no longer used: Range never waits for an entry lock)
 	VerifUPLoadOrStoreRetry = 7 // LoadOrStore, the loaded value's constructor failed: entry unlocked, before starting over with up.Lock()
+	VerifUPDeleteEntry      = 8 // Delete, before up.Lock(): lets a harness separate the Deletes a client issues back to back (closeLogs, Cleanup)
 )
 
 // VerifUsagePoolYield, if set (before any pool is used), is called at every yield
